@@ -9,7 +9,9 @@ tie:     the real Core of both ways, fed to `gomlmodel c14`: the separate Core m
 oracle:  model-free — every project is compiled whole and separately in every topological order with artefacts
          round-tripped through their JSON files; acceptance must agree (same stage when rejected), the Go ASTs of both
          ways must behave alike under Go.Sem, the linked Cores alike under Sem, Go validity (Go.Check) must agree, and
-         check_package / build_package must write the same interface bytes
+         check_package / build_package must write the same interface bytes, and the exports of every built package read
+         back from the .interface JSON text must equal what was written (Debug rendering of exports / to_genv() /
+         hir_interface, compact JSON, recomputed hash)
 """
 import collections, json, os, re, subprocess
 import vlib
@@ -37,6 +39,8 @@ def collect(ctx):
             d["sep"].append(r[2:])
         elif k == "IFACE":
             d["iface"].append(r[2:])
+        elif k == "RT":
+            d.setdefault("rt", []).append(r[2:])
     return progs
 
 
@@ -192,6 +196,22 @@ def run(ctx):
                 ctx.report({"oracle": "check-vs-build", "kind": row[2]},
                            f"check_package and build_package disagree on package {row[1]} (order #{row[0]}): {row[2]}", payload)
 
+    # ---- exports -> interface JSON -> exports is the identity on what an importer's typer reads (every built package,
+    #      accepted or not as a whole project)
+    n_rt = n_rt_same = n_rt_nonempty = 0
+    rt_entries = collections.Counter()
+    for pid, d in progs.items():
+        for row in d.get("rt", []):
+            n_rt += 1
+            n_rt_nonempty += row[3] != "0"
+            rt_entries[min(int(row[3]), 10)] += 1
+            if row[2] == "same":
+                n_rt_same += 1
+            else:
+                ctx.report({"oracle": "exports-roundtrip", "kind": row[2].split(":")[0]},
+                           f"the exports of package {row[1]} (order #{row[0]}) are not what an importer reads back from the .interface JSON: {row[2]}",
+                           {"id": pid, "src": d.get("src", "")[:6000], "package": row[1], "verdict": row[2]})
+
     # ---- tie: the two Cores differ only by function order and per-function renaming of bound names
     res = run_model(ctx, equiv_lines) if equiv_lines else {}
     n_eq = n_eq_ok = n_in_fragment = n_verified_with_closures = 0
@@ -234,6 +254,8 @@ def run(ctx):
         "behaviour_comparisons(distinct separate Go per project)": {"checked": n_beh, "same_as_whole(Go.Sem, Sem, Go.Check)": n_beh_ok},
         "go_text": {"separate_equal_to_whole": n_text_equal, "differs(only order/temporaries, see tie)": n_text_differs},
         "check_vs_build_interface": {"packages_checked": n_iface, "same_bytes": n_iface_same},
+        "exports_roundtrip_through_interface_json": {"packages": n_rt, "identity": n_rt_same, "with_at_least_one_export": n_rt_nonempty,
+                                                     "exported_entries_per_package(capped at 10)": {str(k): v for k, v in sorted(rt_entries.items())}},
         "tie_core_equivalence": {"pairs": n_eq, "equal_up_to_order_and_renaming": n_eq_ok, "inside_verified_fragment(separate_eq_whole_validated applies)": n_in_fragment,
                                  "of_which_with_closure_expressions": n_verified_with_closures,
                                  "outside(only the unverified structural comparison accepts), by reason": dict(outside),
